@@ -28,7 +28,8 @@ type cursorManager struct {
 	*Server
 	mu           sync.RWMutex
 	cache        *lru.Cache
-	disableCache bool // Used for testing purposes only
+	writes       uint64 // Number of cursors stored so far, guarded by mu
+	disableCache bool   // Used for testing purposes only
 }
 
 func newCursorManager(s *Server) *cursorManager {
@@ -141,6 +142,7 @@ func (c *cursorManager) SetCursor(ctx context.Context, streamName, cursorID stri
 
 	// Cache the offset.
 	c.cache.Add(string(cursorKey), cursor.Offset)
+	c.writes++
 
 	return nil
 }
@@ -164,14 +166,15 @@ func (c *cursorManager) GetCursor(ctx context.Context, streamName, cursorID stri
 		return 0, status.New(codes.FailedPrecondition, "Server not cursor partition leader")
 	}
 
+	c.mu.RLock()
+	writes := c.writes
 	if !c.disableCache {
-		c.mu.RLock()
 		if offset, ok := c.cache.Get(string(cursorKey)); ok {
 			c.mu.RUnlock()
 			return offset.(int64), nil
 		}
-		c.mu.RUnlock()
 	}
+	c.mu.RUnlock()
 
 	// Find the latest offset for the cursor in the log.
 	offset, err := c.getLatestCursorOffset(ctx, cursorKey, partition)
@@ -179,9 +182,12 @@ func (c *cursorManager) GetCursor(ctx context.Context, streamName, cursorID stri
 		return 0, status.New(codes.Internal, err.Error())
 	}
 
-	// Cache the offset.
+	// Cache the offset unless a cursor was stored while the log was being
+	// read: what was read may be older than what that call has cached.
 	c.mu.Lock()
-	c.cache.Add(string(cursorKey), offset)
+	if c.writes == writes {
+		c.cache.Add(string(cursorKey), offset)
+	}
 	c.mu.Unlock()
 
 	return offset, nil
